@@ -819,6 +819,18 @@ def symlist_method(it, lst, name, node):
                 lst._write('origin', ('popped', lst.origin))
             return last
         return Builtin('list.pop', pop)
+    if name == 'sort':
+        def sort(it_, a, k, n):
+            # in-place sort: the list object becomes the sorted permutation sorted(lst, key=...) of itself
+            from . import libstubs
+            snap = SymList(lst.name, lst.length, lst.elem_fn, origin=lst.origin)
+            snap.cache = lst.cache
+            new = libstubs.symbolic_sorted(it_, snap, k, n)
+            lst._write('elem_fn', new.elem_fn)
+            lst._write('cache', {})
+            lst._write('origin', new.origin)
+            return None
+        return Builtin('list.sort', sort)
     raise Unsupported('method %s of symbolic list' % name)
 
 
